@@ -61,6 +61,11 @@ func (x *Run) fieldArr(ty types.Type, field int) string {
 	name := fieldArrayName(ty, field)
 	ft := st.Field(field).Type()
 	x.arrSort(name, Sort(fmt.Sprintf("(Array Int %s)", x.d.sortOf(ft))))
+	if nt, ok := types.Unalias(ty).(*types.Named); ok && nt.Obj().Pkg() != nil && !strings.HasPrefix(nt.Obj().Pkg().Path(), frpPrefix) {
+		x.mu.Lock()
+		x.libFieldArr[name] = true
+		x.mu.Unlock()
+	}
 	if isRefType(ft) {
 		x.mu.Lock()
 		x.arrRefEl[name] = true
@@ -107,7 +112,7 @@ func (x *Run) loadField(st *State, ref string, ty types.Type, i int) Val {
 	}
 	v := Val{T: sel(x.arr(st, name), ref), S: x.d.sortOf(ft), Ty: ft}
 	x.assumeType(st, v)
-	if ct, ok := types.Unalias(ft).Underlying().(*types.Chan); ok && x.closable != nil && !x.closable[typeKey(ct.Elem())] && !x.closable["field:"+name] {
+	if ct, ok := types.Unalias(ft).Underlying().(*types.Chan); ok && x.closable != nil && !x.closable[typeKey(ct.Elem())] && !x.closable["field:"+name] && !x.libFieldArr[name] {
 		// no close() of a channel with this element type exists in the loaded frp packages
 		vv := v
 		vv.Origin = name
